@@ -97,6 +97,34 @@ func (f *Frame) call(in ssa.CallInstruction, res *ssa.Call) {
 	}
 	emit(false)
 	f.callInner(in, res)
+	// ghost counters calls("<callee>"): a direct call of the named function
+	// makes the counter grow strictly (whatever the callee does besides)
+	if _, isB := c.Value.(*ssa.Builtin); !isB {
+		name := shortCallee(c)
+		short := name
+		if i := strings.Index(name, "."); i >= 0 {
+			short = name[i+1:]
+		}
+		for _, gk := range f.vc.ghostKeys() {
+			if !strings.HasPrefix(gk, "ghost:calls:") {
+				continue
+			}
+			want := strings.TrimPrefix(gk, "ghost:calls:")
+			hit := want == name || want == short
+			for _, ak := range f.vc.eng.closureAlias[name] {
+				if want == ak || (strings.Index(ak, ".") >= 0 && want == ak[strings.Index(ak, ".")+1:]) {
+					hit = true
+				}
+			}
+			if hit {
+				c1 := f.get(f.cur, gk)
+				c2 := f.vc.fresh(gk+"@counted", "Int")
+				f.vc.assume(S("<", c1, c2))
+				f.set(f.cur, gk, c2)
+				f.vc.countedCalls[want] = true
+			}
+		}
+	}
 	emit(true)
 }
 
@@ -583,10 +611,14 @@ func (f *Frame) applyModifies(spec *FuncSpec, env *TEnv, pre, post *State) {
 	na := vc.fresh("alloc@call", "Int")
 	vc.assume(S("<=", allocPre, na))
 	f.set(post, "alloc", na)
-	if _, ok := vc.eng.keySort["ghost:dyncalls"]; ok && !spec.Pure {
-		dn := vc.fresh("dyncalls@call", "Int")
-		vc.assume(S("<=", f.get(pre, "ghost:dyncalls"), dn))
-		f.set(post, "ghost:dyncalls", dn)
+	if !spec.Pure {
+		// ghost counters (calls through function values, calls of a named
+		// function) only ever grow across a call
+		for _, gk := range vc.ghostKeys() {
+			dn := vc.fresh(gk+"@call", "Int")
+			vc.assume(S("<=", f.get(pre, gk), dn))
+			f.set(post, gk, dn)
+		}
 	}
 	for _, k := range keys {
 		old := f.get(pre, k)
